@@ -35,6 +35,14 @@ import (
 
 const Malformed = "not-a-bech32-address"
 
+// valStrArg: an operator address argument; "<n>U" is the upper-case spelling of operator n's address
+func (w *World) valStrArg(s string) string {
+	if strings.HasSuffix(s, "U") {
+		return strings.ToUpper(w.valStr(atoi(strings.TrimSuffix(s, "U"))))
+	}
+	return w.valStr(atoi(s))
+}
+
 func (w *World) signerAcct(s int) Acct {
 	switch {
 	case s == -1:
@@ -158,13 +166,26 @@ func (w *World) BuildMsg(signer int, m Msg) (sdk.Msg, error) {
 		if err != nil {
 			return nil, err
 		}
-		return &poa.MsgSetPower{Sender: sender, ValidatorAddress: w.valStr(atoi(a[0])), Power: p, Unsafe: a[2] == "1"}, nil
+		return &poa.MsgSetPower{Sender: sender, ValidatorAddress: w.valStrArg(a[0]), Power: p, Unsafe: a[2] == "1"}, nil
 	case "REMOVE":
 		return &poa.MsgRemoveValidator{Sender: sender, ValidatorAddress: w.valStr(atoi(a[0]))}, nil
 	case "RMPENDING":
 		return &poa.MsgRemovePending{Sender: sender, ValidatorAddress: w.valStr(atoi(a[0]))}, nil
 	case "CREATE":
 		// target key lenMon lenId lenWeb lenSec lenDet rate maxRate maxChange minSelf
+		// (a target written "<n>U" spells the operator address in upper case — bech32 allows it; used by the genesis round
+		// trips only)
+		if strings.HasSuffix(a[0], "U") {
+			b := append([]string{}, a...)
+			b[0] = strings.TrimSuffix(a[0], "U")
+			mm, err := w.BuildMsg(signer, Msg{Kind: "CREATE", Args: b})
+			if err != nil {
+				return nil, err
+			}
+			cv := mm.(*poa.MsgCreateValidator)
+			cv.ValidatorAddress = strings.ToUpper(cv.ValidatorAddress)
+			return cv, nil
+		}
 		key := atoi(a[1])
 		desc := poa.NewDescription(strOf(atoi(a[2])), strOf(atoi(a[3])), strOf(atoi(a[4])), strOf(atoi(a[5])), strOf(atoi(a[6])))
 		comm := poa.NewCommissionRates(decArg(a[7]), decArg(a[8]), decArg(a[9]))
@@ -520,6 +541,7 @@ func cometStr(w *World, set *cmttypes.ValidatorSet) string {
 // Observe prints the canonical state lines after a block.
 func (n *Node) Observe() []string {
 	var out []string
+	var vcomLine string
 	ctx := n.Ctx()
 	sk := n.App.StakingKeeper
 	w := n.W
@@ -557,6 +579,25 @@ func (n *Node) Observe() []string {
 		sigKeys = append(sigKeys, key)
 	}
 	sort.Slice(rows, func(i, j int) bool { return rows[i].op < rows[j].op })
+	{
+		// commission rates and minimum self-delegation of every validator record (not modelled: read by the oracles)
+		type crow struct {
+			op  int
+			row string
+		}
+		var cs []crow
+		for _, v := range vals {
+			c := v.Commission.CommissionRates
+			cs = append(cs, crow{w.OpByVal(v.OperatorAddress), fmt.Sprintf("%d:%s:%s:%s:%s", w.OpByVal(v.OperatorAddress), decStr(c.Rate), decStr(c.MaxRate), decStr(c.MaxChangeRate), v.MinSelfDelegation.String())})
+		}
+		sort.Slice(cs, func(i, j int) bool { return cs[i].op < cs[j].op })
+		var sb strings.Builder
+		sb.WriteString("VCOM")
+		for _, c := range cs {
+			sb.WriteString(" " + c.row)
+		}
+		vcomLine = sb.String()
+	}
 	for _, r := range rows {
 		out = append(out, r.row)
 	}
@@ -785,6 +826,7 @@ func (n *Node) Observe() []string {
 		}
 		out = append(out, sb.String())
 	}
+	out = append(out, vcomLine)
 	return out
 }
 
